@@ -909,4 +909,492 @@ theorem demangle_mangleNested (id : List UInt8) (comps : List (List UInt8)) (par
     Int.lt_irrefl, decide_false, hlev, bne_self_eq_false, Bool.or_self, hpos, ge_iff_le, Nat.le_refl, hout']
 
 
+
+/-- `dd_nested_name` on `N <source-name>* <leaf> E` where the loop's behaviour on `<leaf> E` is given:
+    it turns the state `s2` (after the source names) into `s3` positioned at the `E` -/
+theorem nestedName_gen {e : Env} {st : St} (hfx : e.fx = Fixes.all) (F : Nat) (hF : 2 ≤ F) (comps : List (List UInt8))
+    (leaf rest : List UInt8) (hok : ∀ id ∈ comps, IdOk id) (hdollar : (36 : UInt8) ∉ leaf ++ 69 :: rest)
+    (hB : (leaf ++ 69 :: rest).getD 0 0 ≠ 66) (hl : st.len = e.n)
+    (ht : st.type = 0) (htm : st.templates = 0)
+    (h : Rest e st.pos (78 :: (comps.flatMap srcName ++ (leaf ++ 69 :: rest))))
+    (s3 : St)
+    (hleaf : run F .nestedLoop e (comps.foldl appName { st with pos := st.pos + 1, level := st.level + 1 }) = .ok 0 s3)
+    (h3l : s3.len = st.len) (h3p : s3.pos = st.pos + 1 + (comps.flatMap srcName).length + leaf.length) :
+    run (F + comps.length + 1) .nestedName e st = .ok 0 { s3 with pos := s3.pos + 1, level := s3.level - 1 } := by
+  show bNestedName (run (F + comps.length)) e st = _
+  let st1 : St := { st with pos := st.pos + 1 }
+  let st2 : St := { st1 with level := st1.level + 1 }
+  have hne : (78 :: (comps.flatMap srcName ++ (leaf ++ 69 :: rest))).length ≠ 0 := by simp
+  have hdc : debugConsume 78 e st = .ok true st1 := debugConsume_eq 78 hl h
+  have hinc : incLevel e st1 = .ok () st2 := rfl
+  have h2 : Rest e st2.pos (comps.flatMap srcName ++ (leaf ++ 69 :: rest)) := by
+    have := h.drop 1 (by simp)
+    simpa using this
+  have hloop : run (F + comps.length) .nestedLoop e st2 = .ok 0 s3 := by
+    rw [nestedLoop_unroll hfx F hF (leaf ++ 69 :: rest) hdollar hB comps st2 hok hl ht htm h2]
+    exact hleaf
+  have h3 : Rest e s3.pos (69 :: rest) := by
+    have := h2.drop ((comps.flatMap srcName).length + leaf.length) (by simp)
+    rw [h3p]
+    have hd : List.drop ((comps.flatMap srcName).length + leaf.length) (comps.flatMap srcName ++ (leaf ++ 69 :: rest)) =
+        69 :: rest := by
+      rw [← List.append_assoc, List.drop_append_of_le_length (by simp)]
+      simp
+    rw [hd] at this
+    have hp : st.pos + 1 + (comps.flatMap srcName).length + leaf.length =
+        st2.pos + ((comps.flatMap srcName).length + leaf.length) := by
+      show _ = st.pos + 1 + _
+      omega
+    rw [hp]
+    exact this
+  have hdc2 := debugConsume_eq (st := s3) 69 (by rw [h3l]; exact hl) h3
+  unfold bNestedName
+  simp only [bind_def, eof_eq hl h, hne, decide_false, Bool.false_eq_true, ↓reduceIte, hdc, Bool.not_true, hinc, hloop,
+    hdc2, decLevel, modifySt, pure_def]
+
+
+/-- the loop of dd_nested_name on a constructor / destructor code followed by `E` -/
+theorem nestedLoop_ctor {e : Env} {st : St} (hfx : e.fx = Fixes.all) (F : Nat) (cd k : UInt8) (hcd : cd = 67 ∨ cd = 68)
+    (hk : isDigit k = true) (rest : List UInt8) (hl : st.len = e.n) (ht : st.type = 0) (o : List UInt8)
+    (ho : st.out = some o) (h : Rest e st.pos (cd :: k :: 69 :: rest)) :
+    run (F + 2) .nestedLoop e st =
+      .ok 0 { st with pos := st.pos + 2,
+                      out := some (o ++ (if cd = 67 then [58, 58] else [58, 58, 126]) ++ lastComponent o) } := by
+  show bNestedLoop (run (F + 1)) e st = _
+  have hne : (cd :: k :: 69 :: rest).length ≠ 0 := by simp
+  let st1 : St := { st with pos := st.pos + 1 }
+  let st2 : St := { st1 with pos := st1.pos + 1 }
+  have hc1 : consume e st = .ok cd st1 := by
+    have := consume_eq (st := st) hl h (by simp)
+    simpa using this
+  have h1 : Rest e st1.pos (k :: 69 :: rest) := by simpa using h.drop 1 (by simp)
+  have hc2 : consume e st1 = .ok k st2 := by
+    have := consume_eq (st := st1) hl h1 (by simp)
+    simpa using this
+  have h2 : Rest e st2.pos (69 :: rest) := by simpa using h1.drop 1 (by simp)
+  have hne2 : (69 :: rest).length ≠ 0 := by simp
+  have hkI : (k == 73) = false := digit_beq hk 73 rfl
+  have hkT : (k == 84) = false := digit_beq hk 84 rfl
+  have hkt : (k == 116) = false := digit_beq hk 116 rfl
+  let st3 : St := { st2 with out := some (o ++ (if cd = 67 then [58, 58] else [58, 58, 126]) ++ lastComponent o) }
+  have hctor : run (F + 1) .ctorDtorName e st = .ok 0 st3 := by
+    show bCtorDtorName (run F) e st = _
+    unfold bCtorDtorName
+    have ht2 : (st2.type != 0) = false := by simp [st2, st1, ht]
+    have ho2 : st2.out = some o := ho
+    rcases hcd with hcd | hcd <;> subst hcd <;>
+    simp only [bind_def, hc1, hc2, eof_eq (st := st2) hl h2, hne2, decide_false, Bool.false_eq_true, ↓reduceIte, getSt,
+      hkI, hk, Bool.not_true, ht2, ho2, appendBytes, modifySt, pure_def, bne_self_eq_false, Bool.and_false,
+      Bool.false_and, beq_self_eq_true, Bool.and_self, Bool.and_true, Bool.true_and, reduceCtorEq] <;>
+    simp [st3]
+  have hend : run (F + 1) .nestedLoop e st3 = .ok 0 st3 := nestedLoop_end F rest hl h2
+  have hkT' : ¬ k = 84 := by simpa using hkT
+  have hkt' : ¬ k = 116 := by simpa using hkt
+  have hfin : (.ok 0 st3 : Res Int) = .ok 0 { st with pos := st.pos + 2, out := some (o ++ (if cd = 67 then [58, 58] else [58, 58, 126]) ++ lastComponent o) } := by
+    simp [st3, st2, st1, Nat.add_assoc]
+  rw [← hfin]
+  unfold bNestedLoop
+  rcases hcd with hcd | hcd <;> subst hcd <;>
+  simp [bind_def, curr_eq hl h, eof_eq hl h, peek_eq 1 hl h, hkT', hkt', hctor, hend, pure_def]
+
+
+/-- everything the parser tests about an entry of `ops[]` -/
+def OpFacts (o : UInt8 × UInt8 × List UInt8) : Prop :=
+  isLower o.1 = true ∧ (o.1 == 69) = false ∧ (o.1 == 68) = false ∧ (o.1 == 67) = false ∧ (o.1 == 85) = false ∧
+  ops.find? (fun p => p.1 == o.1 && p.2.1 == o.2.1) = some o ∧ (o.1 == 36) = false ∧ (o.2.1 == 36) = false ∧
+  (o.1 == 66) = false
+
+instance (o : UInt8 × UInt8 × List UInt8) : Decidable (OpFacts o) := by unfold OpFacts; infer_instance
+
+set_option maxRecDepth 100000 in
+theorem ops_facts_all : ∀ o ∈ ops, OpFacts o := by decide
+
+/-- the loop of dd_nested_name on an operator code (other than the conversion and literal operators)
+    followed by `E` -/
+theorem nestedLoop_op {e : Env} {st : St} (F : Nat) (o : UInt8 × UInt8 × List UInt8) (ho : o ∈ ops)
+    (hcv : (o.1 == 99 && o.2.1 == 118) = false) (hli : (o.1 == 108 && o.2.1 == 105) = false)
+    (rest : List UInt8) (hl : st.len = e.n) (ht : st.type = 0) (h : Rest e st.pos (o.1 :: o.2.1 :: 69 :: rest)) :
+    run (F + 3) .nestedLoop e st =
+      .ok 0 { st with pos := st.pos + 2, out := some (sepOut st ++ bs%"operator" ++ o.2.2), firstName := false } := by
+  obtain ⟨f1, f2, f3, f4, f5, f6, _, _, _⟩ := ops_facts_all o ho
+  obtain ⟨a, b, name⟩ := o
+  simp only at f1 f2 f3 f4 f5 f6 hcv hli h
+  have g2 : ¬ a = 69 := by simpa using f2
+  have g3 : ¬ a = 68 := by simpa using f3
+  have g4 : ¬ a = 67 := by simpa using f4
+  have g5 : ¬ a = 85 := by simpa using f5
+  let st1 : St := { st with pos := st.pos + 1 }
+  let st2 : St := { st1 with pos := st1.pos + 1 }
+  have hc1 : consume e st = .ok a st1 := by
+    have := consume_eq (st := st) hl h (by simp)
+    simpa using this
+  have h1 : Rest e st1.pos (b :: 69 :: rest) := by simpa using h.drop 1 (by simp)
+  have hc2 : consume e st1 = .ok b st2 := by
+    have := consume_eq (st := st1) hl h1 (by simp)
+    simpa using this
+  have h2 : Rest e st2.pos (69 :: rest) := by simpa using h1.drop 1 (by simp)
+  -- dd_operator_name
+  let st3 : St := { st2 with out := some (sepOut st ++ bs%"operator" ++ name), firstName := false }
+  have hop : run (F + 1) .operatorName e st = .ok 0 st3 := by
+    show bOperatorName (run F) e st = _
+    have ht2 : (st2.type != 0) = false := by simp [st2, st1, ht]
+    unfold bOperatorName
+    simp only [bind_def, hc1, hc2, eof_eq (st := st2) hl h2, List.length_cons, Nat.add_one_ne_zero, decide_false,
+      Bool.false_eq_true, ↓reduceIte, getSt, ht2, f6, hcv, hli]
+    by_cases hf : st.firstName = true
+    · have hf2 : st2.firstName = true := hf
+      simp [appendSeparator, bind_def, getSt, hf2, modifySt, appendBytes, incType, decType, pure_def, st3, sepOut, hf, st2,
+        st1]
+    · have hf' : st.firstName = false := by simpa using hf
+      have hf2 : st2.firstName = false := hf'
+      simp [appendSeparator, bind_def, getSt, hf2, modifySt, appendBytes, incType, decType, pure_def, st3, sepOut, hf', st2,
+        st1, colon2]
+  have hl3 : st3.len = e.n := hl
+  have h3 : Rest e st3.pos (69 :: rest) := h2
+  have hun : run (F + 2) .unqualifiedName e st = .ok 0 st3 := by
+    show bUnqualifiedName (run (F + 1)) e st = _
+    unfold bUnqualifiedName
+    simp [bind_def, curr_eq hl h, peek_eq 1 hl h, eof_eq hl h, f1, g3, g4, g5, hop, curr_eq (st := st3) hl3 h3, pure_def]
+  have hend : run (F + 2) .nestedLoop e st3 = .ok 0 st3 := nestedLoop_end (F + 1) rest hl3 h3
+  have hfin : (.ok 0 st3 : Res Int) = .ok 0 { st with pos := st.pos + 2, out := some (sepOut st ++ bs%"operator" ++ name), firstName := false } := by
+    simp [st3, st2, st1, Nat.add_assoc]
+  rw [← hfin]
+  show bNestedLoop (run (F + 2)) e st = _
+  unfold bNestedLoop
+  simp [bind_def, curr_eq hl h, eof_eq hl h, peek_eq 1 hl h, f1, g2, g3, g4, hun, hend, pure_def]
+
+
+/-- `_ZN <source-name>+ <leaf> E <builtin-type>+` -/
+def mangleLeaf (comps : List (List UInt8)) (leaf params : List UInt8) : List UInt8 :=
+  [95, 90, 78] ++ comps.flatMap srcName ++ leaf ++ [69] ++ params
+
+/-- the state of `demangle_simple` after `_ZN` -/
+def stN (l : List UInt8) : St := { pos := 3, len := l.toArray.size, level := 2 }
+
+/-- **demangle ∘ mangle, generic part**: if the loop of dd_nested_name turns the state after the source
+    names into `s3` (positioned at the closing `E`, output `X`), the whole name demangles to `X`. -/
+theorem demangle_nested_gen (comps : List (List UInt8)) (leaf params : List UInt8) (hok : ∀ id ∈ comps, IdOk id)
+    (hb : ∀ c ∈ params, types.any (fun t => t.1 == c) = true)
+    (hdl : (36 : UInt8) ∉ leaf) (hB : (leaf ++ 69 :: params).getD 0 0 ≠ 66) (hll : leaf.length ≤ 2)
+    (s3 : St) (X : List UInt8)
+    (hleaf : ∀ F, 3 ≤ F → run F .nestedLoop { s := (mangleLeaf comps leaf params).toArray, fx := Fixes.all }
+        (comps.foldl appName (stN (mangleLeaf comps leaf params))) = .ok 0 s3)
+    (h3l : s3.len = (mangleLeaf comps leaf params).toArray.size)
+    (h3p : s3.pos = 3 + (comps.flatMap srcName).length + leaf.length) (h3v : s3.level = 2) (h3o : s3.out = some X) :
+    demangle Fixes.all (mangleLeaf comps leaf params).toArray = .str X := by
+  let l := mangleLeaf comps leaf params
+  let e : Env := { s := l.toArray, fx := Fixes.all }
+  let st0 : St := { pos := 0, len := l.toArray.size }
+  have hlen := flatMap_srcName_length_ge comps
+  have hsz : l.toArray.size = 3 + (comps.flatMap srcName).length + leaf.length + 1 + params.length := by
+    simp [l, mangleLeaf]
+    omega
+  have hR : Rest e 0 l := Rest.of_list l Fixes.all
+  have hl0 : st0.len = e.n := rfl
+  have hlcons : l = 95 :: 90 :: 78 :: (comps.flatMap srcName ++ (leaf ++ 69 :: params)) := by
+    simp [l, mangleLeaf, List.append_assoc]
+  have hne : l.length ≠ 0 := by rw [hlcons]; simp
+  let G := 8 * (l.toArray.size + 2) - 1
+  have hG : G + 1 = fuelFor l.toArray := by simp only [G, fuelFor]; omega
+  let st1 : St := { st0 with pos := 2 }
+  let st2 : St := { st1 with level := st1.level + 1 }
+  have hcons : consumeN 2 e st0 = .ok 95 st1 := by
+    have := consumeN_eq (st := st0) 2 hl0 hR (by rw [hlcons]; simp)
+    rw [this]
+    congr 1
+  have hinc : incLevel e st1 = .ok () st2 := rfl
+  have h2 : Rest e st2.pos (78 :: (comps.flatMap srcName ++ (leaf ++ 69 :: params))) := by
+    have := hR.drop 2 (by rw [hlcons]; simp)
+    rw [hlcons] at this
+    simpa using this
+  have hl2 : st2.len = e.n := rfl
+  have hdollar : (36 : UInt8) ∉ leaf ++ 69 :: params := by
+    simp only [List.mem_append, List.mem_cons, not_or]
+    exact ⟨hdl, by decide, builtin_no_dollar hb⟩
+  -- dd_nested_name
+  let F := G - comps.length - 2
+  have hF : 3 ≤ F := by simp only [F, G]; omega
+  have hnn := nestedName_gen (st := st2) rfl F (by omega) comps leaf params hok hdollar hB hl2 rfl rfl h2 s3
+    (hleaf F hF) h3l (by rw [h3p])
+  have hFe : F + comps.length + 1 = G - 1 := by simp only [F, G]; omega
+  rw [hFe] at hnn
+  let st3 : St := { s3 with pos := s3.pos + 1, level := s3.level - 1 }
+  have hname : run G .name e st2 = .ok 0 st3 := by
+    have : G = (G - 1) + 1 := by simp only [G]; omega
+    rw [this]
+    show bName (run (G - 1)) e st2 = _
+    have hne2 : (78 :: (comps.flatMap srcName ++ (leaf ++ 69 :: params))).length ≠ 0 := by simp
+    unfold bName
+    simp only [bind_def, curr_eq (st := st2) hl2 h2, eof_eq (st := st2) hl2 h2, hne2, decide_false, Bool.false_eq_true,
+      ↓reduceIte, List.getD_cons_zero, beq_self_eq_true, hnn, pure_def]
+    rfl
+  have hl3 : st3.len = e.n := h3l
+  have h3 : Rest e st3.pos params := by
+    have ha : Rest e (st2.pos + 1) (comps.flatMap srcName ++ (leaf ++ 69 :: params)) := by
+      simpa using h2.drop 1 (by simp)
+    have hb' : Rest e (st2.pos + 1 + (comps.flatMap srcName).length) (leaf ++ 69 :: params) := by
+      simpa using ha.drop (comps.flatMap srcName).length (by simp)
+    have hc : Rest e (st2.pos + 1 + (comps.flatMap srcName).length + leaf.length) (69 :: params) := by
+      simpa using hb'.drop leaf.length (by simp)
+    have hd : Rest e (st2.pos + 1 + (comps.flatMap srcName).length + leaf.length + 1) params := by
+      simpa using hc.drop 1 (by simp)
+    have hp : st3.pos = st2.pos + 1 + (comps.flatMap srcName).length + leaf.length + 1 := by
+      show s3.pos + 1 = 2 + 1 + _ + _ + 1
+      rw [h3p]
+    rw [hp]
+    exact hd
+  have henc := encLoop_builtins (e := e) (G - params.length - 1) (by simp only [G]; omega) params st3 hb hl3 h3
+  have hGe2 : G - params.length - 1 + params.length + 1 = G := by simp only [G]; omega
+  rw [hGe2] at henc
+  let st4 : St := { st3 with pos := st3.pos + params.length }
+  have henc' : run G .encLoop e st3 = .ok 0 st4 := henc
+  have h4 : Rest e st4.pos [] := by
+    have := h3.drop params.length (by simp)
+    simpa using this
+  have hl4 : st4.len = e.n := hl3
+  have hcur4 : curr e st4 = .ok 0 st4 := by
+    have := curr_eq (st := st4) hl4 h4
+    simpa using this
+  have hrun : run (fuelFor l.toArray) .encoding e st0 = .ok 0 { st4 with level := st4.level - 1 } := by
+    rw [← hG]
+    show bEncoding (run G) e st0 = _
+    unfold bEncoding
+    simp only [bind_def, eof_eq hl0 hR, hne, decide_false, Bool.false_eq_true, ↓reduceIte, getSt, hcons, hinc,
+      curr_eq (st := st2) hl2 h2, List.getD_cons_zero, show ((78 : UInt8) == 84 || (78 : UInt8) == 71) = false from rfl,
+      hname, Int.lt_irrefl, henc', hcur4, show ((0 : UInt8) == 46) = false from rfl, show ((0 : UInt8) == 64) = false from rfl,
+      decLevel, modifySt, pure_def, beq_self_eq_true, show (st0.pos == 0) = true from rfl]
+  have hpre : globalPrefix.isPrefixOf l = false := by
+    rw [hlcons]
+    simp [globalPrefix, List.isPrefixOf]
+  have hg0 : l.toArray.getD 0 0 = 95 := by rw [hlcons]; simp
+  have hg1 : l.toArray.getD 1 0 = 90 := by rw [hlcons]; simp
+  have hpos : st4.pos = st4.len := by
+    have := h4.1
+    simp only [List.length_nil, Nat.add_zero] at this
+    rw [hl4]
+    exact this
+  have hlev : st4.level - 1 = 0 := by
+    show s3.level - 1 - 1 = 0
+    rw [h3v]; rfl
+  show demangle Fixes.all l.toArray = .str X
+  unfold demangle demangleWith
+  simp only [List.toList_toArray, hpre, Bool.false_eq_true, ↓reduceIte]
+  have hrun' : run (fuelFor l.toArray) .encoding { s := l.toArray, fx := Fixes.all } { pos := 0, len := l.toArray.size } =
+      .ok 0 { st4 with level := st4.level - 1 } := hrun
+  have hout : st4.out = some X := h3o
+  unfold demangleCore
+  simp only [hg0, hg1, beq_self_eq_true, Bool.and_self, Bool.not_true, Bool.false_eq_true, ↓reduceIte, hrun',
+    Int.lt_irrefl, decide_false, hlev, bne_self_eq_false, Bool.or_self, hpos, ge_iff_le, Nat.le_refl, hout]
+
+
+theorem takeWhile_prefix {p : UInt8 → Bool} : ∀ (l₁ : List UInt8) (x : UInt8) (l₂ : List UInt8),
+    (∀ y ∈ l₁, p y = true) → p x = false → (l₁ ++ x :: l₂).takeWhile p = l₁ := by
+  intro l₁
+  induction l₁ with
+  | nil => intro x l₂ _ hx; simp [List.takeWhile, hx]
+  | cons a l ih =>
+    intro x l₂ h hx
+    have ha := h a List.mem_cons_self
+    simp only [List.cons_append, List.takeWhile_cons, ha, ↓reduceIte]
+    rw [ih x l₂ (fun y hy => h y (List.mem_cons_of_mem _ hy)) hx]
+
+theorem takeWhile_all {p : UInt8 → Bool} : ∀ (l : List UInt8), (∀ y ∈ l, p y = true) → l.takeWhile p = l := by
+  intro l
+  induction l with
+  | nil => intro _; rfl
+  | cons a l ih =>
+    intro h
+    simp only [List.takeWhile_cons, h a List.mem_cons_self, ↓reduceIte]
+    rw [ih (fun y hy => h y (List.mem_cons_of_mem _ hy))]
+
+theorem lastComponent_snoc (pre last : List UInt8) (h : (58 : UInt8) ∉ last) : lastComponent (pre ++ 58 :: last) = last := by
+  unfold lastComponent
+  have hr : (pre ++ 58 :: last).reverse = last.reverse ++ 58 :: pre.reverse := by simp
+  rw [hr, takeWhile_prefix last.reverse 58 pre.reverse ?_ (by simp)]
+  · simp
+  · intro y hy
+    have : y ∈ last := by simpa using hy
+    simp only [bne_iff_ne, ne_eq]
+    intro hy58
+    subst hy58
+    exact h this
+
+theorem lastComponent_self (last : List UInt8) (h : (58 : UInt8) ∉ last) : lastComponent last = last := by
+  unfold lastComponent
+  rw [takeWhile_all last.reverse ?_]
+  · simp
+  · intro y hy
+    have : y ∈ last := by simpa using hy
+    simp only [bne_iff_ne, ne_eq]
+    intro hy58
+    subst hy58
+    exact h this
+
+theorem joinNames_cons (a : List UInt8) (l : List (List UInt8)) :
+    joinNames (a :: l) = a ++ l.flatMap (fun id => [58, 58] ++ id) := (intercalate_flatMap [58, 58] l a).symm
+
+/-- the last `::`-component of `a::b::…::last` is `last` -/
+theorem lastComponent_join (init : List (List UInt8)) (last : List UInt8) (h : (58 : UInt8) ∉ last) :
+    lastComponent (joinNames (init ++ [last])) = last := by
+  cases init with
+  | nil =>
+    simp only [List.nil_append]
+    rw [joinNames_cons]
+    simpa using lastComponent_self last h
+  | cons a l =>
+    rw [List.cons_append, joinNames_cons, List.flatMap_append]
+    simp only [List.flatMap_cons, List.flatMap_nil, List.append_nil]
+    have : a ++ (l.flatMap (fun id => [58, 58] ++ id) ++ ([58, 58] ++ last)) =
+        (a ++ l.flatMap (fun id => [58, 58] ++ id) ++ [58]) ++ 58 :: last := by simp [List.append_assoc]
+    rw [this]
+    exact lastComponent_snoc _ last h
+
+
+/-! ## declarations, `mangle`, `qualifiedName` -/
+
+/-- what follows the enclosing scopes in a nested name -/
+inductive Leaf
+  | fn                                        -- an ordinary function: the innermost name is the function
+  | ctor (k : UInt8)                          -- constructor `C<k>` of the innermost class
+  | dtor (k : UInt8)                          -- destructor `D<k>` of the innermost class
+  | op (o : UInt8 × UInt8 × List UInt8)       -- member operator: an entry of the generated `ops[]` table
+
+def Leaf.bytes : Leaf → List UInt8
+  | .fn => []
+  | .ctor k => [67, k]
+  | .dtor k => [68, k]
+  | .op o => [o.1, o.2.1]
+
+def Leaf.Ok : Leaf → Prop
+  | .fn => True
+  | .ctor k => isDigit k = true
+  | .dtor k => isDigit k = true
+  | .op o => o ∈ ops ∧ (o.1 == 99 && o.2.1 == 118) = false ∧ (o.1 == 108 && o.2.1 == 105) = false
+
+/-- a C++ declaration: `scope₁::…::scopeₙ::name` plus what `leaf` says, taking builtin-type parameters -/
+structure Decl where
+  scope : List (List UInt8)
+  name : List UInt8
+  leaf : Leaf
+  params : List UInt8
+
+def Decl.path (d : Decl) : List (List UInt8) := d.scope ++ [d.name]
+
+/-- the Itanium-ABI mangled name `_ZN <source-name>+ [C<k> | D<k> | <operator-code>] E <builtin-type>*` -/
+def mangle (d : Decl) : List UInt8 := mangleLeaf d.path d.leaf.bytes d.params
+
+def leafSuffix (name : List UInt8) : Leaf → List UInt8
+  | .fn => []
+  | .ctor _ => [58, 58] ++ name
+  | .dtor _ => [58, 58, 126] ++ name
+  | .op o => [58, 58] ++ bs%"operator" ++ o.2.2
+
+/-- the qualified name without parameter list: `a::b::f`, `a::K::K`, `a::K::~K`, `a::K::operator+` -/
+def qualifiedName (d : Decl) : List UInt8 := joinNames d.path ++ leafSuffix d.name d.leaf
+
+structure Decl.Ok (d : Decl) : Prop where
+  ids : ∀ id ∈ d.path, IdOk id
+  nocolon : (58 : UInt8) ∉ d.name
+  leaf : d.leaf.Ok
+  params : ∀ c ∈ d.params, types.any (fun t => t.1 == c) = true
+
+theorem demangle_mangle (d : Decl) (h : d.Ok) : demangle Fixes.all (mangle d).toArray = .str (qualifiedName d) := by
+  obtain ⟨scope, name, leaf, params⟩ := d
+  obtain ⟨hids, hnc, hleaf, hpar⟩ := h
+  simp only [Decl.path] at hids
+  simp only at hnc hleaf hpar
+  -- the state after the source names
+  have hpath : ∃ p0 pt, scope ++ [name] = p0 :: pt := by
+    cases scope with
+    | nil => exact ⟨name, [], rfl⟩
+    | cons a t => exact ⟨a, t ++ [name], rfl⟩
+  obtain ⟨p0, pt, hp⟩ := hpath
+  let l := mangleLeaf (scope ++ [name]) leaf.bytes params
+  let S := (scope ++ [name]).foldl appName (stN l)
+  obtain ⟨f1, f2, f3, f4, f5, f6, f7⟩ := foldl_appName_facts (scope ++ [name]) (stN l)
+  have hSout : S.out = some (joinNames (scope ++ [name])) ∧ S.firstName = false := by
+    have := foldl_appName_out0 p0 pt (stN l) rfl rfl
+    rw [← hp] at this
+    exact this
+  have hSlen : S.len = l.toArray.size := f1
+  have hStype : S.type = 0 := f2
+  have hSlevel : S.level = 2 := f4
+  have hSpos : S.pos = 3 + ((scope ++ [name]).flatMap srcName).length := f7
+  have hsz : l.toArray.size = 3 + ((scope ++ [name]).flatMap srcName).length + leaf.bytes.length + 1 + params.length := by
+    simp [l, mangleLeaf]
+    omega
+  have hlcons : l = 95 :: 90 :: 78 :: ((scope ++ [name]).flatMap srcName ++ (leaf.bytes ++ 69 :: params)) := by
+    simp [l, mangleLeaf, List.append_assoc]
+  have hR : Rest { s := l.toArray, fx := Fixes.all } 0 l := Rest.of_list l Fixes.all
+  have hRS : Rest { s := l.toArray, fx := Fixes.all } S.pos (leaf.bytes ++ 69 :: params) := by
+    have := hR.drop (3 + ((scope ++ [name]).flatMap srcName).length) (by rw [hlcons]; simp; omega)
+    rw [hSpos]
+    have hd : List.drop (3 + ((scope ++ [name]).flatMap srcName).length) l = leaf.bytes ++ 69 :: params := by
+      rw [hlcons, Nat.add_comm, List.drop_succ_cons, List.drop_succ_cons, List.drop_succ_cons,
+        List.drop_append_of_le_length (by simp)]
+      simp
+    rw [hd] at this
+    simpa using this
+  have hSl : S.len = ({ s := l.toArray, fx := Fixes.all } : Env).n := hSlen
+  show demangle Fixes.all l.toArray = _
+  cases leaf with
+  | fn =>
+    refine demangle_nested_gen (scope ++ [name]) [] params hids hpar (by simp) (by simp) (by simp) S _ ?_ hSlen
+      (by rw [hSpos]; simp) hSlevel (by rw [hSout.1]; simp [qualifiedName, leafSuffix, Decl.path])
+    intro F hF
+    have : F = (F - 1) + 1 := by omega
+    rw [this]
+    exact nestedLoop_end (F - 1) params hSl hRS
+  | ctor k =>
+    have hk : isDigit k = true := hleaf
+    refine demangle_nested_gen (scope ++ [name]) [67, k] params hids hpar ?_ (by simp) (by simp)
+      { S with pos := S.pos + 2, out := some (joinNames (scope ++ [name]) ++ (if (67 : UInt8) = 67 then [58, 58] else [58, 58, 126]) ++ lastComponent (joinNames (scope ++ [name]))) } _ ?_ hSlen
+      (by show S.pos + 2 = _; rw [hSpos]; simp) hSlevel ?_
+    · simp only [List.mem_cons, List.not_mem_nil, or_false, not_or]
+      refine ⟨by decide, ?_⟩
+      intro h36
+      rw [← h36] at hk
+      cases hk
+    · intro F hF
+      have : F = (F - 2) + 2 := by omega
+      rw [this]
+      exact nestedLoop_ctor rfl (F - 2) 67 k (Or.inl rfl) hk params hSl hStype _ hSout.1 hRS
+    · simp only [↓reduceIte, qualifiedName, leafSuffix, Decl.path, lastComponent_join scope name hnc]
+      simp [List.append_assoc]
+  | dtor k =>
+    have hk : isDigit k = true := hleaf
+    refine demangle_nested_gen (scope ++ [name]) [68, k] params hids hpar ?_ (by simp) (by simp)
+      { S with pos := S.pos + 2, out := some (joinNames (scope ++ [name]) ++ (if (68 : UInt8) = 67 then [58, 58] else [58, 58, 126]) ++ lastComponent (joinNames (scope ++ [name]))) } _ ?_ hSlen
+      (by show S.pos + 2 = _; rw [hSpos]; simp) hSlevel ?_
+    · simp only [List.mem_cons, List.not_mem_nil, or_false, not_or]
+      refine ⟨by decide, ?_⟩
+      intro h36
+      rw [← h36] at hk
+      cases hk
+    · intro F hF
+      have : F = (F - 2) + 2 := by omega
+      rw [this]
+      exact nestedLoop_ctor rfl (F - 2) 68 k (Or.inr rfl) hk params hSl hStype _ hSout.1 hRS
+    · simp only [qualifiedName, leafSuffix, Decl.path, lastComponent_join scope name hnc]
+      simp [List.append_assoc]
+  | op o =>
+    obtain ⟨ho, hcv, hli⟩ := hleaf
+    obtain ⟨g1, g2, g3, g4, g5, g6, g7, g8, g9⟩ := ops_facts_all o ho
+    have hsep : sepOut S = joinNames (scope ++ [name]) ++ [58, 58] := by simp [sepOut, hSout.1, hSout.2]
+    refine demangle_nested_gen (scope ++ [name]) [o.1, o.2.1] params hids hpar ?_ ?_ (by simp)
+      { S with pos := S.pos + 2, out := some (sepOut S ++ bs%"operator" ++ o.2.2), firstName := false } _ ?_ hSlen
+      (by show S.pos + 2 = _; rw [hSpos]; simp) hSlevel ?_
+    · simp only [List.mem_cons, List.not_mem_nil, or_false, not_or]
+      have g7' : ¬ o.1 = 36 := by simpa using g7
+      have g8' : ¬ o.2.1 = 36 := by simpa using g8
+      exact ⟨fun h => g7' h.symm, fun h => g8' h.symm⟩
+    · simpa using g9
+    · intro F hF
+      have : F = (F - 3) + 3 := by omega
+      rw [this]
+      exact nestedLoop_op (F - 3) o ho hcv hli params hSl hStype hRS
+    · simp only [hsep, qualifiedName, leafSuffix, Decl.path]
+      simp [List.append_assoc]
+
+
 end Uft.Demangle
